@@ -120,6 +120,8 @@ def _res_cases(tier):
     for geom in geoms:
         for payload in ("scalar", "vector-series"):
             for mode, native, factors in (("coarser", (4, 2), (2, 2)), ("coarser", (2, 6), (1, 3)), ("finer", (2, 1), (2, 3)), ("finer", (1, 2), (3, 1)),
+                                          # larger integer factors on axes long enough to have interior voxels (voxel-corner, not voxel-centre, parent convention)
+                                          ("finer", (4, 3), (3, 4)), ("finer", (3, 5), (5, 3)),
                                           ("mixed", (2, 2), (2, 1)), ("mixed", (4, 2), (2, 1)), ("mixed-t", (2, 4), (1, 2))):
                 if payload == "vector-series" and "array" in geom or (payload == "vector-series" and geom == "extporous-ia"):
                     pass
